@@ -664,14 +664,20 @@ def run(ctx):
                 tier_c_finish(lctx, F, cres["st"])               # then the EcdsaTrace judge (again <= 4 TLC processes)
             except BaseException as e: cres["err"] = e
         ct = threading.Thread(target=work); ct.start()          # library part of tier C while TLC enumerates tier B
-    if only != "c":
-        try: tier_b(ctx, F, builds, tlc_free)
-        finally: tlc_free.set()
-    else: tlc_free.set()
-    if ct is not None:
-        ct.join()
-        if "err" in cres: raise cres["err"]
-        lctx.replay()
+    try:
+        if only != "c":
+            try: tier_b(ctx, F, builds, tlc_free)
+            finally: tlc_free.set()
+        else: tlc_free.set()
+        if ct is not None:
+            ct.join()
+            if "err" in cres: raise cres["err"]
+            lctx.replay()
+    except R.HangStop:
+        # library calls that never return (each one recorded in F with the key <function>:fault-sig14) used up the tier's watchdog budget
+        if ct is not None: ct.join()
+        ctx.log("stopped driving: %d library calls did not return within %d s of CPU time" % (R._hangs[0], R.WD_CPU))
+        ctx.add(stopped_after_watchdog_deaths=R._hangs[0])
     F.flush()
     ctx.add(samples=["export E8C4 le 1 0 1 57", "import E13 be 02000f -", "impscan E8G be 04 2   (all 65536 strings 04 x y)", "impsep E13 le 0f00   (every second block)",
                      "keygen E8M3 be 1 1 df", "pubkey E16M3 le 0 1 9ffe", "dh E8C4 be 1 0301 - 1f", "dhbn E13 0 f cde 1f98", "sign secp256r1 - be 1111..(35 octets) 01 07   (size edge, ASan)",
